@@ -79,6 +79,7 @@ def correspondence(ctx):
     # directed compositions: a frame that leaves a small input buffer and a large ring, followed by one that needs a larger input buffer but a smaller total
     dl = []
     dm = []
+    fresh_ones = set()
     for _ in range(10 if ctx.quick() else 150):
         wa = rng.choice([14, 15, 16])
         xa = bytes(rng.choice(b"etaoin shrdlu,.\n") for _ in range((1 << wa) * 2))
@@ -89,10 +90,10 @@ def correspondence(ctx):
         a, b = dout[2 * k], dout[2 * k + 1]
         if a.startswith("err") or b.startswith("err"):
             continue
-        comps.append((bytes.fromhex(a) + bytes.fromhex(b), xa + xb))
+        comps.append((bytes.fromhex(a) + bytes.fromhex(b), xa + xb)); fresh_ones.add(len(comps) - 1)
     info = frames.parallel(lambda ch: frames.model_lines(ch), frames.split_chunks(["frameinfo %d %s" % (len(c), frames.hx(f)) for f, c in comps], 16))
     tl, tmeta = [], []
-    for (f, c), fi in zip(comps, info):
+    for ci, ((f, c), fi) in enumerate(zip(comps, info)):
         if not fi.startswith("ok"):
             continue
         for _ in range(3):
@@ -102,7 +103,8 @@ def correspondence(ctx):
             outs = ",".join(str(rng.choice([0, 1, 1, 3, 64, 4096, 131072, 10000000])) for _ in range(rng.randint(1, 4)))
             if outs.replace(",", "").strip("0") == "":
                 outs += ",1"
-            tl.append("decs %d %s %s %s trace" % (len(c), frames.hx(f), ins, outs)); tmeta.append((f, c, fi))
+            # a context of its own (no buffers left over from earlier lines) for the directed compositions and for half of the others
+            tl.append("decs %d %s %s %s trace%s" % (len(c), frames.hx(f), ins, outs, " fresh" if (ci in fresh_ones or rng.random() < 0.5) else "")); tmeta.append((f, c, fi))
     tout = frames.parallel(lambda ch: frames.run_lines(exe, ch, timeout=1800)[1], frames.split_chunks(tl, 16))
     want2 = frames.parallel(lambda ch: frames.run_lines(exe, ch)[1], frames.split_chunks(["xxh " + frames.hx(c) for f, c, fi in tmeta], 16))
     checks, cidx = [], []
